@@ -636,6 +636,13 @@ pub fn run(cfg: &Cfg) {
     run_has_sig(&mut out, &mut rng, if cfg.thorough { 60 } else { 8 });
     run_conversions(&mut out);
     let _ = (ObjectPath::new("/").is_ok(), SignatureWrapper::new("").is_ok());
+    // the dynamic API against itself and the validator on hand-built Param trees: borrowed / owned string-likes at every
+    // alignment phase, the deepest legal values (what the Param API writes, the validator accepts and the Param API reads
+    // back as the same value), ill-typed trees refused
+    {
+        let mut r2 = Prng::new(cfg.seed ^ 0x16f);
+        vcore::eng_wire::run_illformed_params(&mut out, &mut r2);
+    }
     out.finish(
         "the conversions of params::conversion (Param::from by value and by reference for every basic type at boundary values incl. -0.0, NaN payloads, extreme integers; TryFrom<&Base> back; arrays through Container::try_from) vs the typed API; generic derived structs (G1<T> at three T, G2<A,B> at three (A,B), a lifetime-generic one; several instantiations per process in varying order) vs the tuple of their fields: bytes and the signature asked five ways (signature(), sig_str into a non-empty buffer, has_sig, body signature after push_param, signature inside push_variant), the same five ways for every catalogue type; 4 derived structs vs the tuple of their fields vs the Param tree (bytes, signature, cross decoding) x generated values x {LE,BE} x 8 offsets; 3 + 4 cases of two derived enums (named fields, several unnamed fields, ONE unnamed field that is a tuple / a derived struct / an array / a string), 4 of a dbus_variant_sig! enum, 3 of a dbus_variant_var! enum vs the typed variant wrapper vs the Param variant; variants of every catalogue type outside the enums' cases placed between other values of a body (error without moving / Catchall with the following values intact); has_sig of every catalogue type and of the derived structs against valid signatures (shorter, longer, different structs included); distinct by request",
         false,
